@@ -56,6 +56,11 @@ type hqStep struct {
 	Ranks  map[string][][]any `json:"ranks"`
 	Qden   int                `json:"qden"`
 	Bounds [][]any            `json:"bounds"`
+	// buckets present in the spans with a count of 0, one entry per layout of the same histogram
+	Layouts []struct {
+		P []int64 `json:"p"`
+		N []int64 `json:"n"`
+	} `json:"layouts"`
 	Counts [][2]int64         `json:"counts"`
 }
 
@@ -138,9 +143,20 @@ func (c *hqConc) cbPos(key int64, cv []int) int32 {
 	panic("bad custom bucket key")
 }
 
-func (c *hqConc) build(j *hqJ) *histogram.FloatHistogram {
+func (c *hqConc) build(j *hqJ, padP, padN []int64) *histogram.FloatHistogram {
 	h := &histogram.FloatHistogram{Count: float64(j.Cnt * c.scale), Sum: float64(j.Sum) * 0.5}
 	p, n := map[int32]int64{}, map[int32]int64{}
+	// explicitly empty buckets of this layout
+	for _, i := range padP {
+		if j.K == "cb" {
+			p[c.cbPos(i, j.Cv)] = 0
+		} else {
+			p[int32(i)] = 0
+		}
+	}
+	for _, i := range padN {
+		n[int32(i)] = 0
+	}
 	for _, e := range j.P {
 		if j.K == "cb" {
 			p[c.cbPos(e[0], j.Cv)] = e[1] * c.scale
@@ -219,6 +235,9 @@ func (c *hqConc) point(j *hqJ, h *histogram.FloatHistogram, b []any) float64 {
 }
 
 func hqLeq(a, b float64) bool {
+	if math.IsNaN(a) || math.IsNaN(b) {
+		return false // NaN satisfies no relation: it is a failure wherever a relation is demanded
+	}
 	if a <= b {
 		return true
 	}
@@ -259,23 +278,33 @@ func TestVerifC32Replay(t *testing.T) {
 			c.shift = int32(lo + rnd.Intn(hi-lo+1))
 			c.scale = scales[rnd.Intn(len(scales))]
 			c.cb = cbTables[rnd.Intn(len(cbTables))]
-			h := c.build(rec.H)
-			if err := h.Validate(); err != nil {
-				verifh.Infra(fmt.Sprintf("constructed histogram invalid: %v", err))
-				t.Fatal(err)
+			layouts := rec.Layouts
+			if len(layouts) == 0 {
+				layouts = append(layouts, struct {
+					P []int64 `json:"p"`
+					N []int64 `json:"n"`
+				}{})
 			}
-			name := "h" + strconv.Itoa(bi)
-			if _, err := app.AppendHistogram(0, labels.FromStrings("__name__", "nh", "id", name), ts, nil, h); err != nil {
-				verifh.Infra(err.Error())
-				t.Fatal(err)
-			}
-			hc := &hqCase{rec: rec, h: h, name: name}
-			hc.rec.Smin, hc.rec.Smax = init.Smin, init.Smax
-			cases = append(cases, hc)
 			qden = rec.Qden
-			_ = c
-			// keep the concretisation for later
-			caseConc[name] = c
+			for li, lay := range layouts {
+				if li > 0 && len(lay.P)+len(lay.N) == 0 {
+					continue // same as layout 0
+				}
+				h := c.build(rec.H, lay.P, lay.N)
+				if err := h.Validate(); err != nil {
+					verifh.Infra(fmt.Sprintf("constructed histogram invalid: %v", err))
+					t.Fatal(err)
+				}
+				name := "h" + strconv.Itoa(bi) + "_" + strconv.Itoa(li)
+				if _, err := app.AppendHistogram(0, labels.FromStrings("__name__", "nh", "id", name), ts, nil, h); err != nil {
+					verifh.Infra(err.Error())
+					t.Fatal(err)
+				}
+				hc := &hqCase{rec: rec, h: h, name: name}
+				hc.rec.Smin, hc.rec.Smax = init.Smin, init.Smax
+				cases = append(cases, hc)
+				caseConc[name] = c
+			}
 		case "Classic":
 			classics = append(classics, rec.Counts)
 			qden = rec.Qden
@@ -376,6 +405,11 @@ func TestVerifC32Replay(t *testing.T) {
 				if !math.IsNaN(got) {
 					viol("quantile-empty", fmt.Sprintf("histogram_quantile(%v) of an empty histogram = %v, want NaN", q, got), hc.rec)
 				}
+				continue
+			}
+			if math.IsNaN(got) {
+				viol("quantile-nan", fmt.Sprintf("histogram_quantile(%v) = NaN for a histogram with observations (NaN is only documented for q=NaN or an empty histogram): %+v (real %v, spans %v %v / %v %v)", q, hc.rec.H, hc.h, hc.h.PositiveSpans, hc.h.PositiveBuckets, hc.h.NegativeSpans, hc.h.NegativeBuckets), hc.rec)
+				prev[hc.name] = got
 				continue
 			}
 			inside := false
